@@ -1,5 +1,5 @@
 (* C02 — sealed frames.  Property theorems only; proofs in FrameProofs.v. *)
-From Verif Require Import Prelude Gen Frame FrameProofs.
+From Verif Require Import Prelude Gen Frame FrameProofs Translated.
 
 (* Layout: a built frame parses to the indices it was built with and every accessor returns
    the input it was built from (all message types, payload 1..limit, switch block 0..255,
@@ -118,3 +118,13 @@ Proof.
   eexists. eexists. split; [vm_compute; reflexivity|]. split; [vm_compute; reflexivity|].
   split; [vm_compute; lia|]. split; [vm_compute; discriminate|vm_compute; reflexivity].
 Qed.
+
+(* the translated source of MessageType.Class / IsPriority / IsEncrypted (regenerated every run)
+   agrees on every uint8 with the class tables tabulated from the compiled code, which the frame
+   model uses *)
+Theorem C02_source_message_type_tables : forall t, t < 256 ->
+  Gen.go_MessageType_Class t = Gen.msg_class t /\
+  Gen.go_MessageType_IsPriority t = Gen.is_prio t /\
+  Gen.go_MessageType_IsEncrypted t = Gen.is_enc t.
+Proof. exact go_message_type_tables. Qed.
+Print Assumptions C02_source_message_type_tables.
